@@ -16,9 +16,11 @@ import (
 	"fmt"
 	"io"
 	"math/rand"
+	"net"
 	"strings"
 	"sync"
 	"testing"
+	"time"
 
 	"github.com/bokysan/socketace/v2/internal/streams/dns/commands"
 	"github.com/bokysan/socketace/v2/internal/streams/dns/util"
@@ -675,6 +677,129 @@ func c09Payload(gen string, n int, key uint64, rng *rand.Rand) []byte {
 	return b
 }
 
+// c09ClientBuilt: the requests the real client builds by itself (its own padding and size budgets), for one tunnel domain:
+// version handshake, fragment-size probes, the switch of the upstream codec and a write of exactly the upstream budget per
+// codec. Every one must reach the real server and be answered / delivered; nothing is lost on this path.
+func c09ClientBuilt(rec *vcommon.Rec, L int) {
+	domain := c09Domain(L)
+	desc := map[string]interface{}{"family": "client-built-requests", "domain_length": L, "domain": domain}
+	rec.Mark(desc)
+	scomm := &vServerComm{}
+	lst := NewServerDnsListener(domain, scomm)
+	users := make(chan net.Conn, 4)
+	stop := make(chan struct{})
+	go func() {
+		for {
+			select {
+			case <-stop:
+				return
+			case u := <-lst.accept:
+				select {
+				case users <- u:
+				default:
+				}
+			}
+		}
+	}()
+	defer func() { close(stop); scomm.Close() }()
+	comm := newVClientComm(scomm, vAddr(9))
+	fail := func(step string, err error) {
+		rec.Case(fmt.Sprintf("client-built/%d", L), true)
+		rec.Violation("client-built:"+step+":"+c09DomClass(domain), desc, map[string]interface{}{"step": step, "err": fmt.Sprint(err), "last_transport_note": comm.Stats().LastErr})
+	}
+	var cl *ClientDnsConnection
+	var err error
+	var step string
+	var user net.Conn
+	done := make(chan struct{})
+	var problem error
+	go func() {
+		defer close(done)
+		if p, site, val := vcommon.Guard(func() {
+			cl, err = NewClientDnsConnection(domain, comm)
+			if err != nil {
+				step, problem = "new", err
+				return
+			}
+			qt := dnsmessage.Type(10) // NULL: the answers are not the limit here
+			cl.Serializer.Upstream.QueryType = &qt
+			cl.Serializer.Upstream.Encoder = enc.Base32Encoding
+			cl.Serializer.Downstream.Encoder = enc.Base32Encoding
+			if err = cl.VersionHandshake(); err != nil {
+				step, problem = "version-handshake", err
+				return
+			}
+			select {
+			case user = <-users:
+			case <-time.After(10 * time.Second):
+				step, problem = "server-never-accepted-the-session", errors.New("no accept")
+				return
+			}
+			for _, size := range []uint32{50, 1000} {
+				r, e := cl.SendFragmentSizeTest(size, time.Second)
+				if e != nil {
+					step, problem = fmt.Sprintf("fragment-size-probe(%d)", size), e
+					return
+				}
+				if r.Err != nil {
+					step, problem = fmt.Sprintf("fragment-size-probe(%d):answered-with-error", size), r.Err
+					return
+				}
+				rec.Stat("client_built_requests_answered", 1)
+			}
+			for _, codec := range c09UpstreamCodecs {
+				cl.Serializer.Upstream.Encoder = codec
+				if e := cl.SetEncodingUpstream(); e != nil {
+					step, problem = "switch-upstream-codec:"+codec.Name(), e
+					return
+				}
+				if cl.Serializer.Upstream.Encoder.Name() != codec.Name() {
+					continue // refused by the server: not this family's subject
+				}
+				mtu := cl.getUpstreamMtu()
+				cl.Serializer.Upstream.FragmentSize = mtu
+				if mtu == 0 {
+					continue
+				}
+				payload := make([]byte, mtu)
+				vcommon.FillKeyed(uint64(L)*131+7, 0, payload)
+				if _, e := cl.Write(payload); e != nil {
+					step, problem = "write-of-the-whole-upstream-budget:"+codec.Name(), e
+					return
+				}
+				got := make([]byte, len(payload))
+				user.SetReadDeadline(time.Now().Add(10 * time.Second))
+				if _, e := io.ReadFull(user, got); e != nil {
+					step, problem = "write-of-the-whole-upstream-budget:"+codec.Name()+":not-delivered", e
+					return
+				}
+				if !bytes.Equal(got, payload) {
+					step, problem = "write-of-the-whole-upstream-budget:"+codec.Name()+":delivered-different", errors.New("bytes differ")
+					return
+				}
+				rec.Stat("client_built_requests_answered", 1)
+				rec.Stat("payload_bytes_compared", int64(len(payload)))
+			}
+		}); p {
+			step, problem = "panic@"+site, errors.New(val)
+		}
+	}()
+	select {
+	case <-done:
+	case <-time.After(60 * time.Second):
+		comm.Close()
+		rec.Case(fmt.Sprintf("client-built/%d", L), true)
+		rec.Violation("client-built:never-returns:"+c09DomClass(domain), desc, map[string]interface{}{"meaning": "a client call did not return although every request that reached the path was answered at once"})
+		return
+	}
+	if problem != nil {
+		fail(step, problem)
+		return
+	}
+	rec.Case(fmt.Sprintf("client-built/%d", L), true)
+	rec.Stat("client_built_domains_verified", 1)
+}
+
 // c09Concurrent: the server decodes the requests of several users at the same time (one handler goroutine per datagram).
 // k goroutines each push their own numbered packet requests through the whole path (client-side encoding with the shared
 // codec objects, Pack, Unpack, ComposeRequest, DecodeDnsRequest); every one must get back exactly what it sent.
@@ -782,6 +907,14 @@ func TestVerifC09(t *testing.T) {
 			K      int    `json:"goroutines"`
 			Rounds int    `json:"requests_each"`
 		}
+		var cb struct {
+			Family string `json:"family"`
+			L      int    `json:"domain_length"`
+		}
+		if json.Unmarshal(rec.Replay, &cb) == nil && cb.Family == "client-built-requests" {
+			c09ClientBuilt(rec, cb.L)
+			return
+		}
 		if json.Unmarshal(rec.Replay, &fam) == nil && fam.Family == "concurrent-users" {
 			c09Concurrent(rec, c09CodecByName(fam.Codec), fam.K, fam.Rounds)
 			return
@@ -832,12 +965,22 @@ func TestVerifC09(t *testing.T) {
 	for _, e := range c09UpstreamCodecs {
 		items = append(items, c09Item{"concurrent-users", e, 0, 0})
 	}
+	for p := 0; p < 4; p++ {
+		items = append(items, c09Item{"client-built-requests", nil, 0, p})
+	}
 
 	for idx, it := range items {
 		if !rec.Mine(idx) {
 			continue
 		}
 		e := it.codec
+		if it.fam == "client-built-requests" {
+			// every tunnel-domain length from 4 to 200
+			for L := 4 + it.part; L <= 200; L += 4 {
+				c09ClientBuilt(rec, L)
+			}
+			continue
+		}
 		if it.fam == "concurrent-users" {
 			c09Concurrent(rec, e, 8, rec.Pick(4000, 40000))
 			continue
